@@ -146,8 +146,10 @@ Definition idarg_check (r : string * N * N * N) (c : N * string * N) : bool :=
 
 (* every built-in with an ID-typed argument (and the add statement), the first ID argument drawn from every identifier
    of idarg_idents (the five HTTP objects as header, header collection and object; declared objects; enumeration
-   identifiers), in each of the nine scopes: what the linter accepts the simulator runs WITHOUT RAISING ANY ERROR
-   (strict: also no run-time value error), or the cell is a recorded gap *)
+   identifiers), in each of the nine scopes: what the linter accepts the simulator runs without an error that is
+   attributable to the identifier - it runs, or the baseline cell (the same call with an identifier of the correct kind
+   in the same scope) fails too (a value error of the well-typed call, or no object of that kind in the scope: not
+   decidable from the cell, counted in the evidence) - or the cell is a recorded gap *)
 Theorem lint_sub_interp_idargs : forall fn i lint interp p ident s,
   In (fn, i, lint, interp) obs_idargs -> In (p, ident, s) idarg_cells ->
   N.testbit lint p = true ->
